@@ -141,8 +141,8 @@ def norm(x):
 def same(a, b):
     if type(a) is not type(b) and not (isinstance(a, (list, tuple)) and isinstance(b, (list, tuple))):
         return False
-    if isinstance(a, float) and a != a:
-        return b != b
+    if isinstance(a, float):
+        return repr(a) == repr(b)          # NaN equals NaN, -0.0 differs from 0.0
     if isinstance(a, (list, tuple)):
         return len(a) == len(b) and all(same(x, y) for x, y in zip(a, b))
     if isinstance(a, dict):
@@ -150,7 +150,8 @@ def same(a, b):
     return a == b
 
 
-PRIMS = [None, True, False, 0, 1, -7, 2 ** 60, 0.0, -0.0, 1.5, 1e300, "", "x", "é中", "__jsonclass__"]
+PRIMS = [None, True, False, 0, 1, -7, 2 ** 60, 0.0, -0.0, 1.5, 1e300, 5e-324, float("inf"), float("-inf"), float("nan"),
+         "", "x", "é中", "__jsonclass__"]
 
 
 def plain_values(rng, tier):
